@@ -896,7 +896,9 @@ def r_zorder_root(rule, root=None):
     t = txt(loops[0]["body"])
     k = A.binding_name(loops[0]["pat"])
     m = t.fmatch("let$T=Tile::new(Point3::new(tile.corner.x,tile.corner.y,((%sasusize)*root_tile_size)));" % k)
-    if m is not None and t.fmatch("if!self.render_tile_recurse(shape,0,$T){break;}", bind=m) is not None:
+    if m is not None and (t.fmatch("if!self.render_tile_recurse(shape,0,$T){break;}", bind=m) is not None
+                          or t.fmatch("let$K=self.render_tile_recurse(shape,0,$T);if!$K{break;}", bind=m) is not None
+                          or t.fmatch("let$K=self.render_tile_recurse(shape,0,$T);if(!$K){break;}", bind=m) is not None):
         rule.ok("each root tile keeps the 2D corner and stacks along z; a full tile stops the descent")
     else:
         rule.bad("voxel|root-corner", "root tile corners must be (corner.x, corner.y, k * root) and a `false` result must stop the descent", A.where(fn, loops[0]))
@@ -1328,6 +1330,12 @@ def r_keep_going(rule, root=None):
     else:
         conds = A.enclosing_conds(rt["body"], brk[0]) or []
         c = A.no_double_neg(conds[-1].replace(" ", "")) if conds else ""
+        # a named result (`let keep_going = self.render_tile_recurse(..); if !keep_going { break }`)
+        nm_ = re.fullmatch(r"\(?!\(?(\w+)\)?\)?", c)
+        if nm_:
+            for l_ in A.find(rt["body"], "Let"):
+                if A.binding_name(l_["pat"]) == nm_.group(1) and l_.get("init") is not None and not l_["pat"].get("mut") and "render_tile_recurse(" in str(txt(l_["init"])):
+                    c = "!" + str(txt(l_["init"]))
         if c.startswith("!") and "render_tile_recurse(" in c:
             rule.ok("render_tile leaves its z loop when render_tile_recurse answers false", file=VOX, line=brk[0].get("ln", rt["ln"]))
         else:
